@@ -13,6 +13,13 @@ FN = "base_cell_from_proj_coo"
 CENTROID = {(1, 1): (F(1, 2), F(5, 6)), (1, 0): (F(1, 6), F(1, 2)), (0, 1): (F(5, 6), F(1, 2)), (0, 0): (F(1, 2), F(1, 6))}   # (nw, se) -> (x', y')
 
 
+def is_float_cmp(t):
+    """a comparison between floats (the two diagonal tests), not between the small integers derived from them"""
+    from sym import term_ty
+    from mir import INT_TYS
+    return term_ty(t[3]) not in INT_TYS and term_ty(t[4]) not in INT_TYS
+
+
 def model_base_cell(X, Y):
     for b in range(12):
         cx, cy = base_centre(b)
@@ -88,7 +95,7 @@ def run(ctx, crate):
                 for x in walk(t):
                     if x in seen1: continue
                     seen1.add(x)
-                    if x[0] == 'op' and x[1] in ('le', 'ge', 'lt', 'gt') and x[2] == 'bool' and x not in cm and (mentions(x, px) or mentions(x, py)): cm.append(x)
+                    if x[0] == 'op' and x[1] in ('le', 'ge', 'lt', 'gt') and x[2] == 'bool' and is_float_cmp(x) and x not in cm and (mentions(x, px) or mentions(x, py)): cm.append(x)
                     if x[0] == 'phi':
                         for o in e1.phi_ops.get(x, ()): scan1(o, seen1)
             s1 = set()
@@ -115,6 +122,55 @@ def run(ctx, crate):
                 n += 1
                 if (ox, oy) != (0, 0): n_tie += 1
                 if got != want: bad.append({"column": I, "row": J0, "point": (float(X), float(Y)), "on_seam": (ox, oy) != (0, 0), "code": got, "model": want})
+    # ---- the outer edges of the polar-cap facets (lon = k*pi/2 with |lat| > asin(2/3)) -----------
+    # In the rows of the polar caps the unit box holds the facet (one triangle) and two triangles
+    # that are NOT in the image of the projection.  A position exactly on the facet's outer edge
+    # sits on a diagonal of the box, and one more rounding (the function computes `1.0 - y`) can put
+    # it on either side: whatever the two diagonal tests answer there, the result has to be one of
+    # the two base cells that meet at that meridian (at the pole: any cell of that cap).
+    edge_bad = []; n_edge = 0
+    for I in range(4):
+        for J0, cap, base in ((2, "north", 0), (0, "south", 8)):
+            here, west, east = base + I, base + (I - 1) % 4, base + (I + 1) % 4
+            pts = [((F(1, 6), F(1, 2)), {here, west}, "gap triangle west of the facet"), ((F(5, 6), F(1, 2)), {here, east}, "gap triangle east of the facet"),
+                   ((F(1, 2), F(1, 2)), set(range(base, base + 4)), "pole")]
+            if cap == "north":
+                pts += [((F(1, 4), F(1, 4)), {here, west}, "on the NW edge"), ((F(3, 4), F(1, 4)), {here, east}, "on the NE edge")]
+            else:
+                pts += [((F(1, 4), F(3, 4)), {here, west}, "on the SW edge"), ((F(3, 4), F(3, 4)), {here, east}, "on the SE edge")]
+            e1 = Engine(crate); e1.subst = {col[0]: C('u8', I), row[0]: C('u8', J0)}
+            r1 = e1.run(FN)
+            cm = []
+            def scan2(t, seen1):
+                for x in walk(t):
+                    if x in seen1: continue
+                    seen1.add(x)
+                    if x[0] == 'op' and x[1] in ('le', 'ge', 'lt', 'gt') and x[2] == 'bool' and is_float_cmp(x) and x not in cm and mentions(x, px) and mentions(x, py): cm.append(x)
+                    if x[0] == 'phi':
+                        for o in e1.phi_ops.get(x, ()): scan2(o, seen1)
+            s1 = set()
+            if r1.returns: scan2(r1.ret, s1)
+            for d, loc in e1.branches: scan2(d, s1)
+            if len(cm) != 2:
+                ctx.undecided(clause, FN + ":polar-edge-keys(%d,%d)" % (I, J0), "expected two tests relating x and y, found %d" % len(cm), at=b.span); continue
+            for (xp, yp), accept, what in pts:
+                X = 2 * (I + xp); Y = 2 * (J0 + yp) - 3
+                env = {px: float(X), py: float(Y)}
+                vals = tuple(feval(k, env, e1) for k in cm)
+                if any(v is None for v in vals):
+                    ctx.undecided(clause, FN + ":polar-edge-eval(%d,%d)" % (I, J0), "cannot evaluate the diagonal tests at (%s, %s)" % (X, Y), at=b.span); break
+                e = Engine(crate)
+                e.subst = {col[0]: C('u8', I), row[0]: C('u8', J0), cm[0]: C('bool', int(vals[0])), cm[1]: C('bool', int(vals[1]))}
+                r = e.run(FN)
+                got = r.ret[2] if r.returns and r.ret[0] == 'c' else ("panic" if not r.returns else show(r.ret)[:60])
+                n_edge += 1
+                if got not in accept:
+                    edge_bad.append({"cap": cap, "column": I, "where": what, "point": (float(X), float(Y)), "code": got, "acceptable": sorted(accept)})
+    ctx.report(clause, FN + ":polar-facet-edges", not edge_bad and n_edge >= 40,
+               "%d keys on / next to the outer edges of the 8 polar facets and at the poles: the result is always one of the base cells meeting there" % n_edge if not edge_bad else
+               "%d of %d: e.g. %s cap, column %d, %s, point %s: code returns %s, the base cells meeting there are %s (a position with lon = k*pi/2 in a polar cap gets a value that is not a base cell)" % (
+                   len(edge_bad), n_edge, edge_bad[0]["cap"], edge_bad[0]["column"], edge_bad[0]["where"], edge_bad[0]["point"], edge_bad[0]["code"], edge_bad[0]["acceptable"]),
+               at=b.span, kind="N", sample={"keys": n_edge, "mismatches": edge_bad[:4]})
     ctx.report(clause, FN + ":table", not bad and n >= 24,
                "%d test points inside the projection image (%d of them ON a diagonal seam, owned by the cell whose S->E / S->W edge it is): the returned base cell is the model's" % (n, n_tie) if not bad else
                "%d of %d points wrong, e.g. column %s row %s point %s%s: code returns %s, the point belongs to base cell %s" % (len(bad), n, bad[0]["column"], bad[0]["row"], bad[0]["point"], " (on a seam)" if bad[0]["on_seam"] else "", bad[0]["code"], bad[0]["model"]),
